@@ -1,7 +1,7 @@
 #!/bin/bash
 # confirm every incoming seed, 5 workers in parallel
 cd /verif/seeded/_incoming
-ls -d */[AB] | awk '{print NR%5, $0}' > /tmp/confirm_jobs.txt 2>/dev/null || true
+ls -d */[A-Z] | while read j; do [ -f $j/confirm.txt ] && grep -q suite_with_patch_exit $j/confirm.txt || echo $j; done | awk '{print NR%5, $0}' > /tmp/confirm_jobs.txt 2>/dev/null || true
 mkdir -p /tmp/confirm
 for w in 0 1 2 3 4; do
   ( grep "^$w " /tmp/confirm_jobs.txt | while read _ job; do id=${job%/*}; v=${job#*/}; /verif/tools/confirm_seed.sh $id $v $w; done ) &
